@@ -24,13 +24,17 @@ TRUSTED_BASE = ["Coq 8.16.1 kernel (coqc), vm_compute only for the closed sanity
                 "ocaml/prelude.ml + ocaml/c31_driver.ml (token parsing, history reconstruction), harness/h_c31.cpp (virtual clock by "
                 "interposing clock_gettime, quiescence = two further sleeps begun by the timer thread), vlib",
                 "pthread_spin_lock gives mutual exclusion; std::chrono::high_resolution_clock reads clock_gettime(CLOCK_REALTIME)"]
-ASSUMPTIONS = ["schedule(), clear() and one pass of the loop body (including the callback) are atomic with respect to each other (they hold _spin_lock)",
+ASSUMPTIONS = ["schedule(), clear() and one pass of the loop body (including the callback) are atomic with respect to each other (they hold _spin_lock; "
+               "exercised by the W operation: a clear() issued during a callback does not return before the callback has and removes the re-queued event; "
+               "c31_clear_unlocked_refuted shows the clear clause fails for a loop that releases the lock around the callback)",
                "callbacks do not call schedule()/clear() on their own timer (they would deadlock on the non-recursive spin lock)",
                "delays fit an unsigned and the clock is not before the epoch (no 64-bit overflow of now + ms*10^6)"]
 RULE = ("scripts of 6..45 operations: schedule calls (delays 1..200 ms plus the boundary values 0 and 2^32-1; repeat flags; scripted "
         "callback results), clock advances (whole and fractional milliseconds, exactly to / 1 ns before / 1 ns after a due time, "
-        "large jumps that make several events late at once, zero), clear at arbitrary moments; classes aimed at ties, repeats "
-        "that stop on false, clears, boundaries, lateness. After each action the real thread is run to quiescence. "
+        "large jumps that make several events late at once, zero), clear at arbitrary moments, and clear() from a SECOND "
+        "thread while the callback of a repeating event is kept from returning (W: the call must block on the spin lock until "
+        "the callback has returned and the event is re-queued, and must then remove it); classes aimed at ties, repeats that "
+        "stop on false, clears, boundaries, lateness, clear-during-callback. After each action the real thread is run to quiescence. "
         "non-trivial = at least two callback runs observed; distinct = distinct case lines")
 
 MS = 1000000
@@ -73,6 +77,12 @@ class Script:
 
     def clear(self):
         self.ops.append("C")
+        self.dues = []
+
+    def park(self, k, d):
+        """advance by d with callback k parked when it runs; a second thread calls clear() meanwhile"""
+        self.ops.append("W%d:%d" % (k, d))
+        self.now += d
         self.dues = []
 
     def adv_to_due(self, delta=0):
@@ -181,6 +191,35 @@ def gen_one(rng, cls):
             s.adv(rng.randrange(20, 300) * MS + rng.randrange(0, MS))
             if rng.random() < 0.3:
                 s.sched(rng.random() < 0.5, rand_ms(rng), results(rng))
+    elif cls == "park":
+        # a repeating event whose callback is kept from returning while another thread calls clear()
+        for _ in range(rng.randrange(0, 3)):
+            s.sched(rng.random() < 0.3, rand_ms(rng), results(rng))
+        k = len(s.res)
+        ms = rng.randrange(1, 12)
+        s.sched(True, ms, rng.choice(["TTTTTT", "TTTTTT", "TTFT", "FTT", "T"]))
+        for _ in range(rng.randrange(0, 3)):
+            s.sched(rng.random() < 0.4, rng.choice([ms, ms, rand_ms(rng)]), results(rng))
+        if rng.random() < 0.3:
+            s.adv(rng.randrange(0, ms * MS))
+        m = rng.randrange(10)
+        if m < 7:
+            d = s.t0 + ms * MS - s.now + rng.choice([0, 0, 1, 500000])       # callback k due (for the first time)
+        elif m < 9:
+            d = s.t0 + 2 * ms * MS - s.now + rng.choice([0, 1])              # k has run once already, parked at its second run
+            s.adv(s.t0 + ms * MS - s.now)
+            d = s.t0 + 2 * ms * MS - s.now
+        else:
+            d = max(0, s.t0 + ms * MS - s.now - 1)                           # not yet due: plain clear from the second thread
+        s.park(k, max(0, d))
+        for _ in range(rng.randrange(2, 6)):
+            r = rng.random()
+            if r < 0.7:
+                s.adv(ms * MS + rng.choice([0, 1, 250000]))                  # would the cleared event run again?
+            elif r < 0.85:
+                s.sched(rng.random() < 0.5, rand_ms(rng), results(rng))
+            else:
+                s.adv(rand_adv(rng))
     elif cls == "odd":
         # outside the property's range (0 ms, huge delays), clear on an empty queue, zero advances
         for _ in range(n):
@@ -211,14 +250,17 @@ def gen_one(rng, cls):
     return Case(s.line(), cls)
 
 
-CLASSES = ["ties", "repeat", "clear", "boundary", "late", "odd", "random", "random"]
+CLASSES = ["ties", "repeat", "clear", "boundary", "late", "odd", "random", "park"]
 
 
 def gen_cases(rng, tier):
     n = 3000 if tier == "thorough" else 300
     cs = [Case("1000000000 T,-,- S1:5,S0:5,S0:3,A5000000,A5000000,S0:2,C,A10000000", "fixed"),
           Case("0 TTF S1:1,A999999,A1,A1000000,A5000000,A1000000", "fixed"),
-          Case("5 - S0:0,A1000000,S0:1,A1000000", "fixed")]
+          Case("5 - S0:0,A1000000,S0:1,A1000000", "fixed"),
+          Case("1000000000 TTTT,- S1:5,S0:7,W0:5000000,A5000000,A5000000", "park"),
+          Case("1000000000 TTTT,- S1:5,S0:7,W1:5000000,A5000000", "park"),
+          Case("5 TT,T,- S1:3,S0:3,S0:3,W0:3000000,S0:2,A5000000", "park")]
     for i in range(n):
         cs.append(gen_one(rng, CLASSES[i % len(CLASSES)]))
     return cs
